@@ -84,6 +84,17 @@ func (c *conditionLocker) lock() {
 	c.lockMu.Unlock()
 }
 
+// lockIf locks the locker if cond reports true. cond is called while the
+// mutex of the locker is held: an unlock either comes before cond is evaluated
+// or after the locker has been locked.
+func (c *conditionLocker) lockIf(cond func() bool) {
+	c.lockMu.Lock()
+	if cond() {
+		c.bLock = true
+	}
+	c.lockMu.Unlock()
+}
+
 func (c *conditionLocker) unlock() {
 	c.lockMu.Lock()
 	c.bLock = false
@@ -162,6 +173,10 @@ type SecureChannel struct {
 	// duration of the "open" request.
 	openingInstance *channelInstance
 	openingMu       sync.Mutex
+
+	// openingReqID is the id of the "open" request whose response open() is
+	// waiting for, or zero.
+	openingReqID uint32 // atomic.Load/Store
 
 	// errorCh receive dispatcher errors
 	errch chan<- error
@@ -314,8 +329,15 @@ func (s *SecureChannel) dispatcher() {
 			}
 
 			// HACK
+			// Do not read the next chunk before open() has installed the new
+			// channel instance. open() unlocks when it returns. Lock only for
+			// the response open() is still waiting for: if it has given up in
+			// the meantime (timeout) or the response belongs to some other
+			// request then nobody would ever unlock again.
 			if _, ok := msg.Response().(*ua.OpenSecureChannelResponse); ok {
-				s.rcvLocker.lock()
+				s.rcvLocker.lockIf(func() bool {
+					return msg.RequestID != 0 && atomic.LoadUint32(&s.openingReqID) == msg.RequestID
+				})
 			}
 
 			debug.Printf("uasc %d/%d: sending %T to handler", s.c.ID(), msg.RequestID, msg.body)
@@ -698,6 +720,11 @@ func (s *SecureChannel) open(ctx context.Context, instance *channelInstance, req
 	}()
 
 	reqID := s.nextRequestID()
+
+	// let the dispatcher know which response it has to pause for until this
+	// function returns. Reset it before the deferred rcvLocker.unlock() runs.
+	atomic.StoreUint32(&s.openingReqID, reqID)
+	defer atomic.StoreUint32(&s.openingReqID, 0)
 
 	s.openingInstance.algo = algo
 	s.openingInstance.SetMaximumBodySize(int(s.c.SendBufSize()))
